@@ -707,4 +707,229 @@ theorem loader_region (psA psE : List (Bytes × Bytes)) (hA : ∀ p ∈ psA, Pai
     bytesLoader_chunk psA hA, bytesLoader_chunk psE hE]
   simp
 
+/-! ### faults that break the pairing of code and value lines: the loader stops at the first non-integer "code" line -/
+
+theorem bytesLoader_bad (bad : Bytes) (h : parseCode bad = none) (rest : List Bytes) :
+    bytesLoader (bad :: rest) = ⟨[], some .dxfStructureError⟩ := by
+  cases rest with
+  | nil => simp [bytesLoader, h]
+  | cons v r => simp [bytesLoader, h]
+
+/-- a line sequence that holds well-formed pairs and then, at a CODE position, a line that is no integer: `bytes_loader`
+    delivers the tags of the pairs and raises DXFStructureError there, whatever follows -/
+theorem loader_stops (ps : List (Bytes × Bytes)) (hp : ∀ p ∈ ps, PairOk p) (bad : Bytes) (h : parseCode bad = none)
+    (rest : List Bytes) :
+    bytesLoader (chunkLines ps ++ bad :: rest) = ⟨chunkTags ps, some .dxfStructureError⟩ := by
+  rw [bytesLoader_chunk ps hp, bytesLoader_bad bad h]
+  simp
+
+/-- the tag stream ended with an exception: `Recover.load_tags` (consumed completely) cannot return -/
+theorem loadTags_not_ok (cfg : Cfg) (bytes : Bytes) (e : PyErr) (h : (bytesLoader (splitLines bytes)).err = some e)
+    (T : List CTag) : loadTags cfg bytes ≠ .ok T := by
+  unfold loadTags
+  simp only
+  cases detectEncoding cfg (bytesLoader (splitLines bytes)) with
+  | error x => simp
+  | ok enc =>
+    simp only
+    cases compile cfg enc (repairTags (bytesLoader (splitLines bytes))) with
+    | error x => simp
+    | ok ts => simp [h]
+
+/-- every tag `bytes_loader` yields consumes two lines: the output is bounded by the input (no loop can run away) -/
+theorem loader_bounded : ∀ ls : List Bytes, 2 * (bytesLoader ls).tags.length ≤ ls.length
+  | [] => by simp [bytesLoader]
+  | [c] => by
+    simp only [bytesLoader]
+    split <;> simp
+  | c :: v :: rest => by
+    have ih := loader_bounded rest
+    simp only [bytesLoader]
+    split
+    · simp
+    · split
+      · split <;> simp <;> omega
+      · split <;> simp <;> omega
+
+/-- re-pairing after a lost VALUE line: the code line `c` now takes the next code line as its value, every following
+    value line stands at a code position -/
+def shiftPairs (c : Bytes) : List (Bytes × Bytes) → List (Bytes × Bytes) × Bytes
+  | [] => ([], c)
+  | (c1, v1) :: r => let p := shiftPairs v1 r; ((c, c1) :: p.1, p.2)
+
+theorem shift_lines (ps : List (Bytes × Bytes)) : ∀ c : Bytes,
+    c :: chunkLines ps = chunkLines (shiftPairs c ps).1 ++ [(shiftPairs c ps).2] := by
+  induction ps with
+  | nil => intro c; simp [shiftPairs, chunkLines]
+  | cons p r ih =>
+    intro c
+    obtain ⟨c1, v1⟩ := p
+    have := ih v1
+    simp only [chunkLines, List.flatMap_cons, List.cons_append, List.nil_append, shiftPairs] at this ⊢
+    rw [this]
+
+/-! ### complete classification of `bytes_loader` on an arbitrary line list -/
+
+/-- a (code line, value line) pair the loader passes: the code parses and the pair is not (0, EOF) -/
+def CodeOk (p : Bytes × Bytes) : Prop := ∃ code, parseCode p.1 = some code ∧ ¬(code = 0 ∧ rstripCRLF p.2 = sEof)
+
+theorem bytesLoader_chunk' (ps : List (Bytes × Bytes)) (hp : ∀ p ∈ ps, CodeOk p) (rest : List Bytes) :
+    bytesLoader (chunkLines ps ++ rest) = ⟨chunkTags ps ++ (bytesLoader rest).tags, (bytesLoader rest).err⟩ := by
+  induction ps with
+  | nil => simp [chunkLines, chunkTags]
+  | cons p r ih =>
+    obtain ⟨code, hcode, hne⟩ := hp p (by simp)
+    have ih' := ih (fun x hx => hp x (by simp [hx]))
+    have hl : chunkLines (p :: r) ++ rest = p.1 :: p.2 :: (chunkLines r ++ rest) := by simp [chunkLines]
+    rw [hl]
+    conv => lhs; unfold bytesLoader
+    simp only [hcode]
+    have heof : (code == 0 && rstripCRLF p.2 == sEof) = false := by
+      cases h1 : code == 0
+      · simp
+      · cases h2 : rstripCRLF p.2 == sEof
+        · simp
+        · exact absurd ⟨eq_of_beq h1, eq_of_beq h2⟩ hne
+    simp only [heof, Bool.false_eq_true, if_false]
+    rw [ih', chunkTags_cons p r code hcode]
+    by_cases h9 : (code != 999) = true
+    · simp [h9]
+    · have h9' : (code != 999) = false := by simpa using h9
+      simp [h9']
+
+/-- how a run of `bytes_loader` ends -/
+inductive LoaderEnd where
+  | endOfLines                 -- the lines are used up (possibly one unpaired last line whose code parses)
+  | eofTag                     -- a (0, EOF) tag: it is yielded, nothing behind it is read
+  | badCode                    -- a line at a code position without an integer: DXFStructureError
+  deriving DecidableEq, Repr
+
+/-- **classification**: every line list is  pairs ++ tail ; the loader yields exactly the tags of the pairs (plus the EOF
+    tag) and ends in one of three ways, determined by the tail -/
+theorem loader_classification : ∀ ls : List Bytes, ∃ (ps : List (Bytes × Bytes)) (tail : List Bytes) (e : LoaderEnd),
+    (∀ p ∈ ps, CodeOk p) ∧ ls = chunkLines ps ++ tail ∧
+    (match e with
+     | .endOfLines => (tail = [] ∨ ∃ c, tail = [c] ∧ (parseCode c).isSome = true) ∧ bytesLoader ls = ⟨chunkTags ps, none⟩
+     | .eofTag => (∃ c v rest, tail = c :: v :: rest ∧ parseCode c = some 0 ∧ rstripCRLF v = sEof) ∧
+         bytesLoader ls = ⟨chunkTags ps ++ [⟨0, sEof⟩], none⟩
+     | .badCode => (∃ c rest, tail = c :: rest ∧ parseCode c = none) ∧ bytesLoader ls = ⟨chunkTags ps, some .dxfStructureError⟩)
+  | [] => ⟨[], [], .endOfLines, by simp, by simp [chunkLines], by simp [bytesLoader, chunkTags]⟩
+  | [c] => by
+    cases h : parseCode c with
+    | none => exact ⟨[], [c], .badCode, by simp, by simp [chunkLines], ⟨c, [], rfl, h⟩, by simp [bytesLoader, h, chunkTags]⟩
+    | some code =>
+      exact ⟨[], [c], .endOfLines, by simp, by simp [chunkLines], Or.inr ⟨c, rfl, by simp [h]⟩, by simp [bytesLoader, h, chunkTags]⟩
+  | c :: v :: rest => by
+    cases h : parseCode c with
+    | none =>
+      exact ⟨[], c :: v :: rest, .badCode, by simp, by simp [chunkLines], ⟨c, v :: rest, rfl, h⟩,
+        by simp [bytesLoader, h, chunkTags]⟩
+    | some code =>
+      by_cases heof : code = 0 ∧ rstripCRLF v = sEof
+      · obtain ⟨h0, hv⟩ := heof
+        subst h0
+        refine ⟨[], c :: v :: rest, .eofTag, by simp, by simp [chunkLines], ⟨c, v, rest, rfl, h, hv⟩, ?_⟩
+        simp [bytesLoader, h, hv, chunkTags]
+      · obtain ⟨ps, tail, e, hps, hls, hcase⟩ := loader_classification rest
+        have hok : CodeOk (c, v) := ⟨code, h, heof⟩
+        have hall : ∀ p ∈ (c, v) :: ps, CodeOk p := by
+          intro p hp
+          rcases List.mem_cons.1 hp with rfl | hp
+          · exact hok
+          · exact hps p hp
+        have hlines : c :: v :: rest = chunkLines ((c, v) :: ps) ++ tail := by
+          rw [hls]; simp [chunkLines]
+        have hrun : bytesLoader (c :: v :: rest)
+            = ⟨chunkTags [(c, v)] ++ (bytesLoader rest).tags, (bytesLoader rest).err⟩ := by
+          have := bytesLoader_chunk' [(c, v)] (by intro p hp; simp only [List.mem_singleton] at hp; rw [hp]; exact hok) rest
+          simpa [chunkLines] using this
+        have hct : chunkTags ((c, v) :: ps) = chunkTags [(c, v)] ++ chunkTags ps := by
+          simp [chunkTags, List.filterMap_cons]
+          cases parseCode c <;> simp
+          split <;> simp
+        refine ⟨(c, v) :: ps, tail, e, hall, hlines, ?_⟩
+        cases e with
+        | endOfLines => exact ⟨hcase.1, by rw [hrun, hcase.2, hct]⟩
+        | eofTag => exact ⟨hcase.1, by rw [hrun, hcase.2, hct]; simp⟩
+        | badCode => exact ⟨hcase.1, by rw [hrun, hcase.2, hct]⟩
+
+/-! ### `byte_tag_compiler` never yields more tags than it reads -/
+def credit : CP → Nat
+  | .none => 0
+  | .x _ => 1
+  | .xy _ _ => 2
+
+theorem compileStart_len (cfg : Cfg) (enc : Enc) (t : RawTag) (out : List CTag) (st : CP)
+    (h : compileStart cfg enc t = .ok (out, st)) : out.length + credit st ≤ 1 := by
+  unfold compileStart at h
+  split at h
+  · simp only [Except.ok.injEq, Prod.mk.injEq] at h; rw [← h.1, ← h.2]; simp [credit]
+  · split at h
+    · simp at h
+    · simp only [Except.ok.injEq, Prod.mk.injEq] at h; rw [← h.1, ← h.2]; simp [credit]
+
+theorem compileStep_len (cfg : Cfg) (enc : Enc) (st st' : CP) (t : RawTag) (out : List CTag)
+    (h : compileStep cfg enc st t = .ok (out, st')) : out.length + credit st' ≤ 1 + credit st := by
+  unfold compileStep at h
+  cases st with
+  | none =>
+    have := compileStart_len cfg enc t out st' h
+    show out.length + credit st' ≤ 1 + 0
+    omega
+  | x x0 =>
+    simp only at h
+    split at h
+    · simp at h
+    · simp only [Except.ok.injEq, Prod.mk.injEq] at h; rw [← h.1, ← h.2]; simp [credit]
+  | xy x0 y0 =>
+    simp only at h
+    split at h
+    · split at h
+      · simp only [Except.ok.injEq, Prod.mk.injEq] at h; rw [← h.1, ← h.2]; simp [credit]
+      · simp at h
+    · split at h
+      · cases hcs : compileStart cfg enc t with
+        | error e => rw [hcs] at h; simp at h
+        | ok p =>
+          rw [hcs] at h
+          simp only [Except.ok.injEq, Prod.mk.injEq] at h
+          have := compileStart_len cfg enc t p.1 p.2 (by rw [hcs])
+          rw [← h.1, ← h.2]
+          show (p.1.length + 1) + credit p.2 ≤ 1 + 2
+          omega
+      · simp at h
+
+theorem compileGo_bounded (cfg : Cfg) (enc : Enc) (l : List RawTag) : ∀ (st : CP) (T : List CTag),
+    compileGo cfg enc st l = .ok T → T.length ≤ l.length + credit st := by
+  induction l with
+  | nil =>
+    intro st T h
+    cases st with
+    | none => simp [compileGo] at h; simp [h]
+    | x a => simp [compileGo] at h; simp [h]
+    | xy a b =>
+      simp only [compileGo] at h
+      split at h
+      · simp only [Except.ok.injEq] at h; rw [← h]; simp [credit]
+      · simp at h
+  | cons t r ih =>
+    intro st T h
+    rw [compileGo_cons] at h
+    cases hstep : compileStep cfg enc st t with
+    | error e => rw [hstep] at h; simp at h
+    | ok p =>
+      obtain ⟨out, st'⟩ := p
+      rw [hstep] at h
+      simp only at h
+      cases hgo : compileGo cfg enc st' r with
+      | error e => rw [hgo] at h; simp at h
+      | ok ts =>
+        rw [hgo] at h
+        simp only [Except.ok.injEq] at h
+        have h1 := compileStep_len cfg enc st st' t out hstep
+        have h2 := ih st' ts hgo
+        rw [← h]
+        simp only [List.length_append, List.length_cons]
+        omega
+
 end EzdxfVerif.Lemmas.RecoverCausal
